@@ -1419,7 +1419,7 @@ func (c *cluster) streamRetryScenario() {
 // shard has to reach that state within restoreBound, observed from outside (state
 // machine of the replica, log range of the witness): nothing is sent from the
 // hosts of the added members, a leader has to find them by itself.
-const restoreBound = 10 * time.Second
+const restoreBound = 20 * time.Second
 
 // upVoters returns the hosts that run a voting replica.
 func (c *cluster) upVoters() []int {
@@ -1554,6 +1554,7 @@ func (c *cluster) allCatchUp(key, phase string) {
 	c.rec.mu.Unlock()
 	kind := map[int]string{roleVoter: "voting", roleNonVoting: "non-voting", roleWitness: "witness"}
 	by := time.Now().Add(restoreBound)
+	lastKeep := time.Now()
 	for i := 0; i < maxHosts; i++ {
 		nh, role := c.get(i), c.roleOf(i)
 		if nh == nil || kind[role] == "" {
@@ -1579,11 +1580,23 @@ func (c *cluster) allCatchUp(key, phase string) {
 				break
 			}
 			if time.Now().After(by) {
-				c.violation("restore scenario (%s): the %s replica %d did not catch up within %v after proposals completed under leader %d (it has %d, needed %d); nothing is sent from its host, the leader has to reach it",
-					phase, kind[role], i+1, restoreBound, leader+1, have, map[bool]uint64{true: lastIndex, false: target}[role == roleWitness])
+				lid, term, known, _ := nh.GetLeaderID(shardID)
+				c.violation("restore scenario (%s): the %s replica %d did not catch up within %v after proposals completed under leader %d (it has %d, needed %d; its host sees leader %d term %d known=%v, the host that leads now is %d); nothing is sent from its host, the leader has to reach it",
+					phase, kind[role], i+1, restoreBound, leader+1, have, map[bool]uint64{true: lastIndex, false: target}[role == roleWitness], lid, term, known, c.leaderHost()+1)
 				break
 			}
 			time.Sleep(10 * time.Millisecond)
+			// the shard stays in use while the members are awaited (a proposal every
+			// two seconds on the leader's own host; nothing through the awaited hosts)
+			if time.Since(lastKeep) > 2*time.Second {
+				lastKeep = time.Now()
+				if l := c.leaderHost(); l >= 0 {
+					if lnh := c.get(l); lnh != nil {
+						c.doWrite(0, l, lnh, 1, uint64(2000000+2*len(c.ops)), false, time.Second, nil, nil)
+					}
+				}
+				c.note("restore_slow_catch_up")
+			}
 		}
 	}
 	c.note("restore_" + key + "_checked")
